@@ -123,7 +123,8 @@ fn main() {
       if let Ok(txt) = std::fs::read_to_string(dir.join("known_findings.jsonl")) {
          for line in txt.lines().filter(|l| !l.trim().is_empty()) {
             let v: serde_json::Value = serde_json::from_str(line).expect("known_findings.jsonl line");
-            if v["status"] == "known" && v["property"] == o.prop.as_str() {
+            // open findings: KNOWN-FINDING while the replay still fails; fixed ones: plain regression cases
+            if (v["status"] == "known" || v["status"] == "fixed") && v["property"] == o.prop.as_str() {
                if let Some(rp) = v["replay"].as_str() {
                   groups.push(group_from_replay(&dir.join(rp), Some(v["id"].as_str().unwrap_or("?").to_string())));
                }
